@@ -193,7 +193,7 @@ type c02Hist struct {
 	Items     []string `json:"items"`      // alphabet names
 	Seps      []string `json:"seps"`       // event after each produce: none|flush|restart|flush+restart
 	StoreFail int      `json:"store_fail"` // 1-based index of the produce during which the metadata-store offset update fails (0 = none)
-	Alpha     string   `json:"alphabet"` // mini | reduced | full
+	Alpha     string   `json:"alphabet"`   // mini | reduced | full
 	Hex       []string `json:"record_sets_hex,omitempty"`
 	idx       []int
 	seq       int64
